@@ -256,4 +256,37 @@ theorem substituting_a_failing_arg_changes_outcome (sem : Sem) :
 
 end Contextual
 
+
+/-! ## `cast_data_reducer`: the GENERATED pair table -/
+section CastPairs
+open Gen.Optimiser
+
+/-- unwrap after wrap: sound (`cast_data_cancel`; for lists the items come back by `dataItems_ok`) -/
+def unwrapAfterWrap : List (Builtin × Builtin) :=
+  [(.unIData, .iData), (.unBData, .bData), (.unListData, .listData), (.unMapData, .mapData)]
+/-- wrap after unwrap: the recorded finding (`wrap_after_unwrap_not_identity`) -/
+def wrapAfterUnwrap : List (Builtin × Builtin) :=
+  [(.iData, .unIData), (.bData, .unBData), (.listData, .unListData), (.mapData, .unMapData)]
+
+/-- every pair `outer (inner x) ↦ x` of the generated table is a wrap/unwrap pair of the SAME kind,
+in one of the two directions; a new pair (say `(UnIData, BData)`, or anything with `constrData`)
+does not get past this -/
+theorem cast_pairs_classified :
+    ∀ p ∈ castCancelPairs, p ∈ unwrapAfterWrap ∨ p ∈ wrapAfterUnwrap := by decide
+
+theorem dataItems_ok : ∀ (cs : List Const) (ds : List Data), dataItems cs = .ok ds → cs = ds.map .data
+  | [], ds, h => by simp [dataItems] at h; subst h; rfl
+  | c :: rest, ds, h => by
+    cases c <;> simp [dataItems] at h
+    case data d =>
+      cases hr : dataItems rest with
+      | ok r =>
+        rw [hr] at h
+        simp [bind, Res.bind, pure] at h
+        subst h
+        simp [dataItems_ok rest r hr]
+      | _ => rw [hr] at h; simp [bind, Res.bind] at h
+
+end CastPairs
+
 end AikenVerif.C02
